@@ -112,7 +112,7 @@ vars == <<shape, fixes, connRec, clientIdx, clock, cst, reg, last, hb, alive, de
 \* lifetimes are kept as REMAINING ticks, so the state graph without the clock is finite and the
 \* exhaustive check covers sessions of any length; the generator keeps the clock to bound sleeps
 \* age influences nothing unless KeepCreatedAt (or the "long" generation filter) looks at it
-ageV    == IF KeepCreatedAt \/ Only = "long" THEN age ELSE 0
+ageV    == IF KeepCreatedAt \/ Only \in {"long", "longre"} THEN age ELSE 0
 view    == <<shape, fixes, connRec, clientIdx, cst, reg, last, hb, alive, dev, lost, ageV, lk, lkDone, lkWrote>>
 genview == <<shape, fixes, connRec, clientIdx, clock, cst, reg, last, hb, alive, dev, lost, ageV, lk, lkDone, lkWrote>>
 
@@ -149,8 +149,8 @@ Init == /\ shape \in Shapes /\ fixes \in FixSets
 \*   "lookup" a heartbeat of the client's current connection after a two-step lookup of the client
 \*           completed whose index read had been overtaken (handshake elsewhere / cleanup in between)
 \*   "long"   a heartbeat or tick at which a client is connected on a connection at least one
-\*           registration lifetime old (session outlives the lifetime), and a successful
-\*           re-handshake on such a connection
+\*           registration lifetime old (the session outlives the lifetime)
+\*   "longre" a successful re-handshake on such a connection
 \*   "first"  a first-connection handshake (server-assigned identity)
 \*   "reauth" a successful re-handshake on an already authenticated connection that is not (any
 \*           more) where the store locates the client
@@ -162,8 +162,8 @@ Wanted(e, foundBefore) ==
                          \/ e.a \in {"HB", "Close", "Late"} /\ \E x \in Clients : lost'[x] /\ ConnectedP(x)
     [] Only = "close" -> e.a \in {"Close", "Late"} /\ e.w # "peer" /\ e.x # "-" /\ foundBefore /\ AllClosedP(e.x)
     [] Only = "lookup" -> e.a = "HB" /\ e.x # "-" /\ lkDone'[e.x] /\ ConnectedP(e.x) /\ last'[e.x] = e.c
-    [] Only = "long"  -> \/ e.a \in {"Tick", "HB"} /\ \E x \in Clients : ConnectedP(x) /\ age'[last'[x]] >= TTL
-                         \/ e.a = "Auth" /\ cst[e.c].auth = e.x /\ age[e.c] >= TTL /\ alive[e.c]
+    [] Only = "long"   -> e.a \in {"Tick", "HB"} /\ \E x \in Clients : ConnectedP(x) /\ age'[last'[x]] >= TTL
+    [] Only = "longre" -> e.a = "Auth" /\ cst[e.c].auth = e.x /\ age[e.c] >= TTL /\ alive[e.c]
     [] Only = "first" -> e.a = "Auth" /\ e.w = "new"
     [] Only = "reauth" -> e.a = "Auth" /\ cst[e.c].auth = e.x
                           /\ (last[e.x] # e.c \/ ~(clientIdx[e.x].ttl > 0 /\ clientIdx[e.x].conn = e.c))
